@@ -5,17 +5,18 @@
 // VolumeLocation add/remove messages are the only way the client's vidMap is
 // changed (one applier goroutine, as in production).
 //
-//   sequential: random notification sequences, a sentinel message as barrier (the
-//               stream is ordered), then every lookup API is compared with a
-//               reference set and the same-data-center-first rule;
-//   concurrent: reader goroutines using every lookup API (and iterating the
-//               returned slices the way callers do) while the applier works
-//               through add/delete storms; every read must equal the reference
-//               state after some prefix of the notifications that is possible
-//               between its call and its return; a sample of the history is also
-//               checked with porcupine against a per-volume set model;
-//   reconnect:  the stream is dropped, the client rebuilds its map from the replay;
-//               set and ordering rule are checked again.
+//	sequential: random notification sequences, a sentinel message as barrier (the
+//	            stream is ordered), then every lookup API is compared with a
+//	            reference set and the same-data-center-first rule;
+//	concurrent: reader goroutines using every lookup API (and iterating the
+//	            returned slices the way callers do) while the applier works
+//	            through add/delete storms; every read must equal the reference
+//	            state after some prefix of the notifications that is possible
+//	            between its call and its return; a sample of the history is also
+//	            checked with porcupine against a per-volume set model;
+//	reconnect:  the stream is dropped, the client rebuilds its map from the replay;
+//	            set and ordering rule are checked again.
+//
 // Race reports whose both stacks are inside weed/wdclient are decisive.
 package main
 
@@ -75,13 +76,27 @@ type client struct {
 	mc   *wdclient.MasterClient
 	fm   *lib.FakeMaster
 	// sentinel bookkeeping
-	nSentinel uint32
+	nSentinel  uint32
 	reconnects int
 }
 
 const sentinelBase = 900000000
 
 var clientSeq int32
+
+func newClientOwn(r *lib.Run, dc string) *client {
+	fm := ownMaster(r)
+	return newClient(r, fm, dc, []string{fm.Addr()})
+}
+
+// ownMaster starts a fake master of its own for one client: clients that share a master address
+// share one cached gRPC connection (pb.WithCachedGrpcClient), which the pb layer closes for all of them
+// after a few stream errors of any of them.
+func ownMaster(r *lib.Run) *lib.FakeMaster {
+	fm, err := lib.NewFakeMaster()
+	r.Must(err, "start fake master")
+	return fm
+}
 
 func newClient(r *lib.Run, fm *lib.FakeMaster, dc string, masters []string) *client {
 	n := atomic.AddInt32(&clientSeq, 1)
@@ -802,8 +817,8 @@ func raceVerdict(r *lib.Run, component string) {
 // a reconnect is judged by the quiet reconnect mode.
 func reconnectLoadChild(r *lib.Run, fm *lib.FakeMaster) {
 	clients := []*client{
-		newClient(r, fm, "dc1", []string{fm.Addr()}),
-		newClient(r, fm, "dc2", []string{fm.Addr()}),
+		newClientOwn(r, "dc1"),
+		newClientOwn(r, "dc2"),
 	}
 	rng := r.SubRng("c35-reconnect-load-" + r.Args[1])
 	for round := 0; round < 3; round++ {
@@ -843,7 +858,16 @@ func reconnectUnderLoad(r *lib.Run, self string, n int) {
 				tail = tail[:2500]
 			}
 			r.Count("reconnect_under_load_process_died", 1)
-			r.Violation(lib.Sig{"mode": "reconnect-under-load", "class": "process-died", "fatal": strings.TrimPrefix(msg, "fatal error: ")},
+			msg = strings.TrimPrefix(msg, "fatal error: ")
+			// the runtime's message can be interleaved with log lines of other threads
+			for _, phrase := range []string{"sync: RUnlock of unlocked RWMutex", "sync: Unlock of unlocked RWMutex", "concurrent map read and map write",
+				"concurrent map writes", "concurrent map iteration and map write", "all goroutines are asleep"} {
+				if strings.Contains(tail, phrase) {
+					msg = phrase
+					break
+				}
+			}
+			r.Violation(lib.Sig{"mode": "reconnect-under-load", "class": "process-died", "fatal": msg},
 				map[string]interface{}{"attempt": k, "rounds_survived": survived, "log": tail})
 		} else if survived < 3 {
 			tail := text
@@ -941,15 +965,15 @@ func main() {
 	}
 
 	clients := []*client{
-		newClient(r, fm, "dc1", []string{fm.Addr()}),
-		newClient(r, fm, "", []string{fm.Addr()}),
-		newClient(r, fm, "dc2", []string{fm.Addr()}),
+		newClientOwn(r, "dc1"),
+		newClientOwn(r, ""),
+		newClientOwn(r, "dc2"),
 	}
 	t0 := time.Now()
 	phase := func(name string) { fmt.Fprintf(os.Stderr, "phase %s done at %.1fs\n", name, time.Since(t0).Seconds()) }
 
 	// sequential: the clients work through their sequences side by side
-	nSeq := r.Pick(2000, 20000) / repeats
+	nSeq := r.Pick(2000, 12000) / repeats
 	var swg sync.WaitGroup
 	for ci, c := range clients {
 		swg.Add(1)
@@ -969,7 +993,7 @@ func main() {
 	phase("sequential")
 
 	// concurrent
-	runs := r.Pick(20, 200)
+	runs := r.Pick(20, 100)
 	crng := r.SubRng(fmt.Sprintf("c35-conc-%d", *part))
 	for i := 0; i < runs; i++ {
 		clients[i%len(clients)].runConcurrent(*part*10000+i, crng, 8, r.Pick(80, 160))
@@ -1008,9 +1032,9 @@ func main() {
 			ref.apply(m)
 		}
 		c.barrier()
-		fm.CopyStateTo(c.name, fm2)
-		fm.HintLeaderOnce(c.name, fm2.Addr())
-		r.Must(fm.Drop(c.name), "drop stream for redirect")
+		c.fm.CopyStateTo(c.name, fm2)
+		c.fm.HintLeaderOnce(c.name, fm2.Addr())
+		r.Must(c.fm.Drop(c.name), "drop stream for redirect")
 		if fm2.WaitSession(c.name, 1, 90*time.Second) {
 			c.fm = fm2
 			c.reconnects++
